@@ -637,6 +637,39 @@ func c02Exotic(push bool) *Scenario {
 	}
 }
 
+// c02Whitespace: JSON white space (SP, TAB, LF, CR and mixtures) before, after and inside the
+// envelope of class representatives: insignificant to JSON, so the classification must not change.
+func c02Whitespace(push bool) *Scenario {
+	return &Scenario{
+		Name:   fmt.Sprintf("white space around and inside envelopes (SP TAB LF CR CRLF mixed) push=%v", push),
+		Params: map[string]any{"push": push, "white_space": []string{" ", "\t", "\n", "\r", "\r\n", " \r\n\t "}},
+		Seq: func(r *SeqRun) {
+			reps := c02Reps()
+			objs := []string{reps[0], reps[3], reps[6], reps[10], reps[18]}
+			for _, ws := range []string{" ", "\t", "\n", "\r", "\r\n", " \r\n\t "} {
+				if r.Expired() {
+					return
+				}
+				for i, o := range objs {
+					o2 := objs[(i+1)%len(objs)]
+					for _, rec := range []string{
+						ws + o, o + ws, ws + o + ws,
+						ws + "[" + o + "]", "[" + o + "]" + ws, "[" + ws + o + ws + "]",
+						ws + "[" + ws + o + ws + "," + ws + o2 + ws + "]" + ws,
+						strings.Replace(o, ":", ws+":"+ws, -1), strings.Replace(o, ",", ws+","+ws, -1),
+					} {
+						c02Explore(r, []byte(rec), push, false)
+					}
+				}
+				for _, rec := range []string{ws + "[]", "[" + ws + "]", ws + "[]" + ws, ws + "5", ws + "null", ws, ws + ws, ws + "{}", ws + "[[]]"} {
+					c02Explore(r, []byte(rec), push, false)
+				}
+			}
+			r.Sample(map[string]any{"record": "\r\n[ {\"jsonrpc\":\"2.0\",\"id\":1,\"method\":\"ok\"} ]\r\n", "push": push})
+		},
+	}
+}
+
 func c02Scenarios(tier string) []*Scenario {
 	var out []*Scenario
 	q := tier == "quick"
@@ -654,7 +687,7 @@ func c02Scenarios(tier string) []*Scenario {
 			}
 			out = append(out, c02Fields(ver, push, orders))
 		}
-		out = append(out, c02Batches(push), c02Exotic(push))
+		out = append(out, c02Batches(push), c02Exotic(push), c02Whitespace(push))
 		ml := 4
 		if !q {
 			ml = 5
